@@ -18,8 +18,9 @@ $DEMOCMD > $DEST/demo_without_patch.log 2>&1; R_DEMO_BEFORE=$?
 (cd $W && git apply $OUT/patch.diff) || { echo "patch does not apply"; exit 2; }
 cargo test --offline --no-fail-fast > $DEST/suite_with_patch.log 2>&1
 PASSED=$(grep -h "^test result" $DEST/suite_with_patch.log | awk '{s+=$4} END {print s}')
-FAILED=$(grep -h "^test .* FAILED" $DEST/suite_with_patch.log | grep -v "unicode_reduce_fill0\|text_normalize_pad0\|trigrams_basic\|seed_demo" | wc -l)
 $DEMOCMD > $DEST/demo_with_patch.log 2>&1; R_DEMO_AFTER=$?
+grep -h "^test .* FAILED" $DEST/demo_with_patch.log | awk '{print $2}' > $DEST/.demo_failed
+FAILED=$(grep -h "^test .* FAILED" $DEST/suite_with_patch.log | grep -v "unicode_reduce_fill0\|text_normalize_pad0\|trigrams_basic\|seed_demo" | awk '{print $2}' | grep -v -x -F -f $DEST/.demo_failed | wc -l); rm -f $DEST/.demo_failed
 cd /verif
 git -C /repo worktree remove --force $W
 echo "demo without patch rc=$R_DEMO_BEFORE (want 0); demo with patch rc=$R_DEMO_AFTER (want !=0); suite with patch: passed=$PASSED unexpected failures=$FAILED"
@@ -42,4 +43,21 @@ for P in $PROP "$@"; do
 done
 git -C /repo checkout -- . 
 (cd /verif/harness && cargo build > /dev/null 2>&1)
+python3 - "$ID" "$PROP" "$R_DEMO_BEFORE" "$R_DEMO_AFTER" "$PASSED" "$FAILED" "$RES" <<'PY'
+import json, sys, os
+sid, prop, db, da, passed, failed, res = sys.argv[1:8]
+d = f"/verif/seeded/{sid}"
+notes = open(os.path.join(d, "notes.md")).read() if os.path.exists(os.path.join(d, "notes.md")) else ""
+checks = {}
+for tok in res.split():
+    p, rc, v = tok.split(":")
+    checks[p] = {"exit": int(rc.split("=")[1]), "violation_lines": int(v.split("=")[1])}
+meta = {"id": sid, "breaks_property": prop, "source": "independent sub-agent given only the property text and a scratch worktree",
+        "needs_to_manifest": notes[:1500],
+        "confirmed_in_scratch_worktree": {"demo_without_patch_exit": int(db), "demo_with_patch_exit": int(da), "suite_with_patch_passed": int(passed or 0), "suite_with_patch_unexpected_failures": int(failed or 0),
+                                          "commands": ["cargo test --offline --test seed_demo (without / with patch)", "cargo test --offline --no-fail-fast (with patch)"]},
+        "our_checks_with_patch_applied_to_repo": checks,
+        "detected_by": [p for p, c in checks.items() if c["exit"] != 0]}
+json.dump(meta, open(os.path.join(d, "meta.json"), "w"), indent=1, ensure_ascii=False)
+PY
 echo "RESULT $ID demo_before=$R_DEMO_BEFORE demo_after=$R_DEMO_AFTER suite_passed=$PASSED suite_unexpected_fail=$FAILED checks:$RES"
